@@ -29,6 +29,22 @@ package scanner
 //@   modifies everything()
 //@   ensures result0 && result2 == ite(closeLevel >= 0, closeLevel + 1, closeLevel)
 
+// A comment that starts with `--[` but is not a long bracket (`--[x`, `--[=x`,
+// `--[` at the end of a line) is a short comment: it ends at the first line end.
+// The character that showed it is not a long bracket has not been consumed when
+// the short-comment scanner takes over - otherwise a line end there would be
+// swallowed and the comment would run over the next line.  (The default case of
+// the opening loop of scanLong, extracted verbatim; it runs right after next().)
+//@ fragment long_open_other of scanLong at switch#1 c/case default
+//@   prop C12
+//@   arith int
+//@   requires scOK(l) && canBackup(l)
+//@   norte
+//@   nocover
+//@   modifies everything()
+//@   exits any
+//@   ensures comment ==> l.pos.Offset == old(l.last.Offset)
+
 // ---------------------------------------------------------------------------
 // C04: the scanner is total on every byte string
 // ---------------------------------------------------------------------------
